@@ -74,10 +74,16 @@ def register(reg):
             ctx.assume(V.slen(delims) >= 1)
             if kind == 0:
                 ctx.assume(V.slen(delims) == 1)       # group delimiters are single characters
-        parser = new_obj(it, DEP, {
-            'delimiters': delims, 'optional': sym_bool(it, 'optional'), 'allow_pre_space': sym_bool(it, 'allow_pre_space'),
-            'discard_parsing_state_delta': (kind == 0),
-            'delimited_expression_parser_info_class': resolve_class(it, GINFO if kind == 0 else MINFO)}, tag='self')
+        # the parser object as the library's own constructors configure it (group parser / math parser): in particular
+        # whether a state change made by the contents is handed on (discard_parsing_state_delta)
+        if kind == 0:
+            parser = it.call(resolve_class(it, DEL + 'LatexDelimitedGroupParser'), [],
+                             {'delimiters': delims, 'optional': sym_bool(it, 'optional'), 'allow_pre_space': sym_bool(it, 'allow_pre_space')})
+        else:
+            parser = it.call(resolve_class(it, 'pylatexenc.latexnodes.parsers._math.LatexMathParser'), [],
+                             {'math_mode_delimiters': delims, 'optional': sym_bool(it, 'optional'),
+                              'allow_pre_space': sym_bool(it, 'allow_pre_space')})
+        parser.tag = 'self'
         return {'self': parser, 'latex_walker': w, 'token_reader': tr, 'parsing_state': ps, 'kwargs': PyDict()}
 
     reg.spec('is_math_parser')(lambda it: it.ctx.ghost['del_kind'] == 1)
@@ -125,6 +131,9 @@ def register(reg):
                  ('node-kind-and-delimiters',
                   "implies(result[0] is not None, (is_math_node(result[0]) == is_math_parser()) and "
                   "result[0].delimiters[0] == the_token().arg)"),
+                 # a group and a formula are groups for TeX: a parsing-state change made by the contents (which would replace
+                 # the enclosing state by the CONTENTS' state, math mode included) is not handed on to what follows
+                 ('no-state-change-leaks-out-of-a-group-or-a-formula', 'result[1] is None'),
                  ('internal:the-contents-are-parsed-once-in-the-contents-state-up-to-the-closing-delimiter',
                   'implies(result[0] is not None, contents_parsed_once_in(parsing_state))')],
         raises={EXC + 'LatexWalkerNodesParseError': {'ensures': [
